@@ -431,6 +431,71 @@ def ensemble_steps(M, rec, rng, sm, reps):
         sm.enabled = was
 
 
+def restepped_models(M, rec, rng, g, n_nets):
+    """The flows REPORTED by a compiled function (more_out) obey the bounds too, also for a model whose last step was taken
+    by the caller's own per-element loop with another sampling time than an earlier `Network.step` of the same objects
+    (a simulation model and a prediction model over the same variables): the bounds are those of the last step's T."""
+    from vf import compilecases as CC
+
+    sh = W.shapes_cycle()
+    for it in range(n_nets):
+        desc = g.network(("ramp", "merge", "chain", next(sh))[it % 4])[1]
+        if not any(o["kind"] in ("ramp", "simple", "main") for o in desc["origins"]):
+            continue
+        if any(o.get("user") or o.get("user_cap_flow") is not None for o in desc["origins"]):
+            continue
+        pars = g.pars()
+        T2 = rng.choice([t for t in (5.0, 20.0, 30.0, 60.0) if abs(t / 3600.0 - pars["T"]) > 1e-9]) / 3600.0
+        st = ("SX", "MX")[it % 2]
+        try:
+            case = CC.CompileCase(M, rng, desc, pars, st, [], {}, own_symbols=(it % 4 < 2), prestep="step", restep_T=T2)
+            compact = rng.choice((0, 1, 2))
+            F = case.compile(compact, True)
+        except Exception:
+            rec.count("restepped_models_failed_to_build")
+            continue
+        if not getattr(case, "restepped", False):
+            continue
+        ins, outs, org, dst = R.topology(desc)
+        for _pt in range(3):
+            _, vals = g.values(desc, "interior", allow_inf=False)
+            for o in desc["origins"]:  # a waiting queue and a modest demand: demand + queue/T is the active limit
+                if o["id"] not in vals:
+                    continue
+                if "w" in vals[o["id"]]:
+                    vals[o["id"]]["w"] = rng.uniform(2.0, 30.0)
+                    vals[o["id"]]["d"] = rng.uniform(100.0, 600.0)
+                if "r" in vals[o["id"]]:
+                    vals[o["id"]]["r"] = 1.0
+                if "q" in vals[o["id"]]:
+                    vals[o["id"]]["q"] = 1e5
+                if "v_ctrl" in vals[o["id"]]:
+                    vals[o["id"]]["v_ctrl"] = 400.0
+            if R.is_singular(desc, vals):
+                continue
+            try:
+                xn, q, qo = case.call(F, vals, compact, True)
+            except Exception:
+                rec.count("restepped_models_failed_to_evaluate")
+                break
+            rec.count("restepped_model_evaluations")
+            for o in desc["origins"]:
+                if o["kind"] == "ideal" or (o["kind"] == "simple" and o["eq"] == "unlimited") or o["id"] not in (qo or {}):
+                    continue
+                lk = outs[o["node"]][0]
+                r1 = vals[lk["id"]]["rho"][0]
+                if r1 > lk["rho_max"] or (o["kind"] == "main" and not (1.0 <= lk["a"] <= 3.5)):
+                    continue
+                sv = vals[o["id"]]
+                cap = o["C"] if o["kind"] != "main" else lk["lam"] * lk["v_free"] * math.exp(-1 / lk["a"]) * lk["rho_crit"]
+                what = {"ramp": f"metered[{o['eq']}]", "simple": "simplified[limited]", "main": "mainstream"}[o["kind"]]
+                rec.count("network_origin_evaluations")
+                bounds(rec, f"reported by the function of a model stepped again with another sampling time ({st})", what, qo[o["id"]], sv["d"], sv["w"], T2,
+                       cap, r1, lk["rho_max"], o["kind"] != "main",
+                       {"desc": desc, "vals": vals, "T_of_the_last_step": T2, "T_of_the_earlier_step": pars["T"], "origin": o["id"], "reported_flow": qo[o["id"]],
+                        "compact": compact})
+
+
 def run(M, rec, tier, seed, k, n):
     np.seterr(all="ignore")
     rng = random.Random(seed * 1000 + k + 1700)
@@ -467,6 +532,7 @@ def run(M, rec, tier, seed, k, n):
         W.inplace_pairs(M, rec, rng, 40 if tier == "quick" else 400, allow_inf=False, before_case=on_case)
         replaced_link_scenarios(M, rec, rng, G.NetGen(rng), 24 if tier == "quick" else 200)
         ensemble_steps(M, rec, rng, sm, 24 if tier == "quick" else 200)
+        restepped_models(M, rec, rng, G.NetGen(rng), 24 if tier == "quick" else 200)
         W.closed_loop(M, rec, rng, 7 if tier == "quick" else 14, 90 if tier == "quick" else 260, on_step=on_step)
     finally:
         sm.uninstall()
